@@ -100,6 +100,14 @@ structure Cfg where
   non-blocking send (select/default): it succeeds only if the loop is already blocked in the receive.
   Selected by the regenerated fact `Generated.C08.wakeSendBlocking`. -/
   wake : Bool
+  /-- the TOKEN shape of the suspend / wake-up handshake (candidate repair `fixes/C08-suspend-token.patch`):
+  `r.suspend` has capacity 1, the handler leaves (at most) one token on EVERY NodeOnline with a non-blocking
+  send and does not touch the flag, the loop clears `isSuspend` after its receive. `true` overrides `wake`.
+  Selected by the regenerated fact `Generated.C08.suspendChanBuffered` (`Tie.wake_shape` pins the rest of the
+  shape: handler conditions, kind of send, the loop's program in the offline branch). A stale token is not
+  part of the state: it makes the loop go once more round IsReady's offline branch (receive, clear, liveness
+  test, mark, block) inside the same atomic event, with the same final state. -/
+  tok : Bool := false
   deriving Repr, DecidableEq
 
 /-- image of the leader partition directory (queue + both followers' groups) -/
@@ -413,8 +421,9 @@ def peerEv (cfg : Cfg) (s : St) : Ev → St × Out
       -- IsReady: GetLiveNode fails, isSuspend.CompareAndSwap(false, true), state := failure ... (window) ...
       let s := { s with chan := .failure, susp := true }
       -- ... the follower comes online: handleNodeStateChangeEvent's CAS(true, false) succeeds, then the send
+      -- (token shape: the handler leaves a token, the loop's receive takes it and the LOOP clears the flag)
       let s := { s with live := true, susp := false }
-      if cfg.wake then
+      if cfg.tok || cfg.wake then
         -- blocking send: the handler waits; the loop's `<-r.suspend` takes the token and IsReady runs again
         replicaStep cfg s f
       else
@@ -426,7 +435,12 @@ def peerEv (cfg : Cfg) (s : St) : Ev → St × Out
       -- IsReady: GetLiveNode fails ... (window) ... stateManager.onNodeStartup: the node is live again, the
       -- handler's `isSuspend.CompareAndSwap(true, false)` FAILS (the flag is still false): it does nothing ...
       -- ... the loop goes on: CAS(false, true), state := failure, `<-r.suspend` — blocked although the follower is live
-      ({ s with live := true, chan := .failure, susp := true, parked := true }, .parked)
+      if cfg.tok then
+        -- token shape: the handler has left a token; the loop marks itself, its receive takes the token at once,
+        -- it clears the flag and IsReady runs again — the follower is live: the handshake
+        replicaStep cfg { s with live := true, chan := .failure, susp := false } f
+      else
+        ({ s with live := true, chan := .failure, susp := true, parked := true }, .parked)
     else onlineEv cfg s f
   | _ => (s, .idle)
 
@@ -659,9 +673,12 @@ structure T where
   verdict : Bool      -- the tick has tested the group and found it empty; stopReplicator not yet run
   stopped : Bool
   late : Bool         -- ghost: an append landed after the last emptiness test that found the group empty, before its stopReplicator
+  hs : Bool := false  -- the last request was lost: the channel is in `failure`, the next loop iteration starts with the handshake,
+                      -- which rewinds the consumed sequence to the follower's appended index (= the acknowledged one: one follower,
+                      -- requests are lost before they reach it)
   deriving DecidableEq, Repr
 
-def T.init : T := { app := -1, cons := -1, gack := -1, infl := none, verdict := false, stopped := false, late := false }
+def T.init : T := { app := -1, cons := -1, gack := -1, infl := none, verdict := false, stopped := false, late := false, hs := false }
 
 inductive Step | append | consume | ack | lose | test | stop
   deriving DecidableEq, Repr
@@ -669,12 +686,19 @@ inductive Step | append | consume | ack | lose | test | stop
 def step (emptyByAck : Bool) (t : T) : Step → T
   | .append => { t with app := t.app + 1, late := t.late || t.verdict }
   | .consume =>
-    if t.stopped = false ∧ t.infl = none ∧ t.cons < t.app then { t with cons := t.cons + 1, infl := some (t.cons + 1) } else t
+    -- IsReady's handshake after a lost request: ResetReplicaIndex(follower's next index)
+    let c := if t.hs then t.gack else t.cons
+    if t.stopped = false ∧ t.infl = none then
+      (if c < t.app then { t with cons := c + 1, infl := some (c + 1), hs := false } else { t with cons := c, hs := false })
+    else t
   | .ack =>
     match t.infl with
     | some i => if t.stopped = false then { t with gack := i, infl := none } else t
     | none => t
-  | .lose => { t with infl := none }     -- send / receive failed: consumed, never acknowledged
+  | .lose =>                              -- the request is lost (Send fails): consumed, never acknowledged; state := failure
+    match t.infl with
+    | some _ => { t with infl := none, hs := true }
+    | none => t
   | .test =>
     if t.stopped = false ∧ t.verdict = false then
       { t with verdict := if emptyByAck then decide (t.app ≤ t.gack) else decide (t.app ≤ t.cons), late := false }
